@@ -64,7 +64,7 @@ class C20:
               'listing_order_non_sorted', 'locale_cannot_encode', 'relative_path_via_virtual_cwd', 'roundtrip_checked', 'actor_unlink',
               'interrupt_delivered', 'load_equal_checked', 'dump_equal_checked', 'converter_equal_checked', 'bom_input', 'crlf_input',
               'flipped_byte_input', 'rerun_after_fault_exact', 'edited_in_place_same_size', 'big_input_over_24k', 'output_is_the_input_file', 'blank_line_in_input', 'dumped_a_loaded_document', 'output_directory_removed_externally',
-              'non_nfc_input', 'stdout_cannot_encode_progress_line', 'header_only_input', 'input_of_exactly_one_buffer', 'cell_over_csv_field_limit', 'dir_mode_with_output_path']
+              'non_nfc_input', 'stdout_cannot_encode_progress_line', 'header_only_input', 'input_of_exactly_one_buffer', 'cell_over_csv_field_limit', 'dir_mode_with_output_path', 'target_holds_same_text_with_crlf']
 
     # ================================================================ plan
     def gen_plan(self, seed, index, tier):
@@ -223,7 +223,8 @@ class C20:
         #  - the encoding of the process's stdout (a terminal or pipe under LANG=C cannot take the arrow of the progress line);
         #  - input files whose non-ASCII text is NOT in Unicode normal form C (decomposed accents, Angstrom/Ohm signs).
         env2 = {'stdout': 'utf-8' if erng.random() < 0.85 else erng.choice(['ascii', 'latin-1', 'ascii', 'closed']), 'nonnfc_inputs': erng.random() < 0.15,
-                'logging': 'DEBUG' if erng.random() < 0.08 else 'default'}
+                'logging': 'DEBUG' if erng.random() < 0.08 else 'default',
+                'warnings': 'error' if erng.random() < 0.08 else 'default'}
         return {'property': self.PROPERTY, 'config': 'fault_injecting' if faulty else 'fault_free', 'class': klass, 'fs': fsplan, 'cwd': cwd,
                 'docs': docs, 'ops': ops, 'env2': env2}
 
@@ -259,7 +260,10 @@ class C20:
     # ================================================================ execution
     def execute(self, plan):
         from simkit.envknobs import debug_logging
-        with debug_logging((plan.get('env2') or {}).get('logging') == 'DEBUG'):     # the application logs at DEBUG
+        import warnings
+        with debug_logging((plan.get('env2') or {}).get('logging') == 'DEBUG'), warnings.catch_warnings():     # the application logs at DEBUG
+            # python -W error in 8% of the runs (the deprecated aliases are then not used by the workload: they warn by design)
+            warnings.simplefilter('error' if (plan.get('env2') or {}).get('warnings') == 'error' else 'ignore')
             return self._execute(plan)
 
     def _execute(self, plan):
@@ -572,7 +576,7 @@ class C20:
                     # been helped by it when it gives the reference answer
                     ref = ref_load(data, op['raise_on_errors']) if data is not None else None
                     try:
-                        if op.get('deprecated_api'):
+                        if op.get('deprecated_api') and (plan.get('env2') or {}).get('warnings') != 'error':
                             d, e = kp.read(arg, strict=op['raise_on_errors'])        # deprecated alias of load
                         else:
                             d, e = kp.load(arg, raise_on_errors=op['raise_on_errors'])
@@ -607,6 +611,16 @@ class C20:
                         before = fs.snapshot()
                     arg = Path(op['path']) if op['pathtype'] == 'Path' else op['path']
                     d = docs[op['doc'] % len(docs)]
+                    if op.get('prefill') and len(op['path']) % 2 == 0:
+                        # every second pre-existing target holds THE SAME export already, with CRLF line ends (an earlier dump on
+                        # another system): dump still writes exactly what dumps returns
+                        try:
+                            same = kp.dumps(kp.loads(d.render())[0], **real_opts(op['opts'])).replace('\n', '\r\n').encode(locale)
+                            fs.put(target, same)
+                            before = fs.snapshot()
+                            bump(probes, 'target_holds_same_text_with_crlf')
+                        except Exception:
+                            pass
                     try:
                         if op.get('from_load') and fs.get(op['from_load']) is not None:
                             kd, _ = kp.load(op['from_load'])
